@@ -6,7 +6,7 @@
 //! result (one line), stage by stage, each stage under its own catch_unwind:
 //!   `G OK rl=.. pl=.. tl=.. eof=.. sp=.. mpl=.. nr=.. np=.. nt=.. gh=<hash>`
 //!        | `G REFUSED <msg>` | `G OTHERPANIC <msg>` | `G ERR <msg>`
-//!   ` | T OK ns=.. nst=.. start=.. rawh=<hash> th=<hash>` | ` | T REFUSED <msg>` | ` | T OTHERPANIC <msg>` | ` | T ERR <msg>`
+//!   ` | T OK ns=.. nst=.. start=.. sr=<#shift/reduce> rr=<#reduce/reduce> unreach=.. rawh=<hash> th=<hash>` | ` | T REFUSED <msg>` | ` | T OTHERPANIC <msg>` | ` | T ERR <msg>`
 //!   ` | P <toks> => <outcome>` per usable input
 //! rl/pl/tl/eof/sp are the values REPORTED by rules_len()/prods_len()/tokens_len()/
 //! eof_token_idx()/start_prod(); mpl the largest reported prod_len(); nr/np/nt the number of
@@ -326,6 +326,10 @@ macro_rules! width_impl {
                     usize::from(st.start_state())
                 )
                 .unwrap();
+                match st.conflicts() {
+                    None => write!(o, " sr=0 rr=0").unwrap(),
+                    Some(c) => write!(o, " sr={} rr={}", c.sr_len(), c.rr_len()).unwrap(),
+                }
                 let canon = match catch(std::panic::AssertUnwindSafe(|| canon_states(&sg))) {
                     Ok(c) => c,
                     Err(m) => {
